@@ -26,7 +26,7 @@ def cases(tier, seed):
 
 
 def make_context(tier, seed):
-    return S.make_context(tier, seed)
+    return S.make_context(tier, seed, ["finalize"])
 
 
 def run_case(case, ctx):
